@@ -821,11 +821,17 @@ func (sp *StaticPredicate) AddComparison(op io.ComparisonOperatorEnum,
 		if sp.max == nil {
 			sp.SetMax(value, op == io.LTE)
 		} else {
-			isWithin, err := io.GenericComparison(value, sp.max, op)
+			// keep the tighter of the two upper bounds; on a tie the exclusive bound is the tighter one
+			lower, err := io.GenericComparison(value, sp.max, io.LT)
 			if err != nil {
 				return err
 			}
-			if !isWithin {
+			notHigher, err := io.GenericComparison(value, sp.max, io.LTE)
+			if err != nil {
+				return err
+			}
+			if lower || (notHigher && op == io.LT) {
+				sp.ContentsEnum.DelOption(INCLUSIVEMAX)
 				sp.SetMax(value, op == io.LTE)
 			}
 		}
@@ -833,11 +839,17 @@ func (sp *StaticPredicate) AddComparison(op io.ComparisonOperatorEnum,
 		if sp.min == nil {
 			sp.SetMin(value, op == io.GTE)
 		} else {
-			isWithin, err := io.GenericComparison(value, sp.min, op)
+			// keep the tighter of the two lower bounds; on a tie the exclusive bound is the tighter one
+			higher, err := io.GenericComparison(value, sp.min, io.GT)
 			if err != nil {
 				return err
 			}
-			if !isWithin {
+			notLower, err := io.GenericComparison(value, sp.min, io.GTE)
+			if err != nil {
+				return err
+			}
+			if higher || (notLower && op == io.GT) {
+				sp.ContentsEnum.DelOption(INCLUSIVEMIN)
 				sp.SetMin(value, op == io.GTE)
 			}
 		}
